@@ -139,7 +139,7 @@ func init() {
 			return seqCases(master, n, nil)
 		},
 		Gen:            func(c Case, pool *Pool) *Plan { return GenChain(c.Seed, pool) },
-		RequiredProbes: map[string][]string{"quick": {"chain_filtered", "key_algebra_checked"}, "thorough": {"chain_filtered", "key_algebra_checked", "replayed_operation"}},
+		RequiredProbes: map[string][]string{"quick": {"chain_filtered", "key_algebra_checked", "chain_degraded_recover_link"}, "thorough": {"chain_filtered", "key_algebra_checked", "replayed_operation", "chain_degraded_recover_link"}},
 		Components:     worldComponents,
 		Assumptions:    worldAssumptions,
 	})
